@@ -22,4 +22,116 @@ theorem absStep_sound (e : Eff) (arg n m : Nat) (k0 : Option Int) (hk0 : ∀ k, 
     have h1 := hk0 k1 rfl
     cases e <;> simp [absStep] at hk <;> simp only [Eff.rel] at hrel <;> omega
 
+/-! ### constructor sizes -/
+
+theorem numValues_length : ∀ (args : List Arg) (vs : List Nat), numValues args = some vs → vs.length = args.length := by
+  intro args
+  induction args with
+  | nil => intro vs h; simp [numValues] at h; subst h; rfl
+  | cons a r ih =>
+    intro vs h
+    cases a <;> simp [numValues] at h
+    obtain ⟨w, hw, rfl⟩ := h
+    simp [ih w hw]
+
+theorem allNum_head {a : Arg} {r : List Arg} (h : allNum (a :: r) = true) : a.isIntegral = true ∧ allNum r = true := by
+  cases a <;> simp [allNum, Arg.isIntegral] at h ⊢
+  exact h
+
+/-- the non-list constructors: what `getContainerSizeFromConstructorArgs` returns is the reference size -/
+theorem ctorArgs_sound (k : CKind) (braces : Bool) (args : List Arg) (s r : Nat)
+    (hwf : args.all Arg.wf = true) (hex : ctorExcluded k braces args = false) (hnl : (braces && allNum args) = false)
+    (hs : ctorArgsSize (k == .string) args = some s) (hr : ctorRefPlain k args = some r) : s = r := by
+  unfold ctorRefPlain at hr
+  split at hr
+  all_goals (try (simp [ctorArgsSize, Arg.isIntegral, Arg.isContainer, Arg.isPointer, Arg.isIterator, Arg.contValues, Arg.knownInt, isIteratorPair] at hs))
+  all_goals (try (simp [ctorExcluded, allNum, numValues, Arg.wf] at hex hwf hnl hr))
+  all_goals (try (split at hs)) <;> (try simp_all) <;> (try omega)
+
+theorem dedup_length_le : ∀ l : List Nat, (dedup l).length ≤ l.length
+  | [] => Nat.le_refl _
+  | x :: r => by
+    have := dedup_length_le r
+    unfold dedup
+    split <;> simp <;> omega
+
+/-- **a Known size given to a freshly constructed container is the size the constructor call produces**, outside the listed call
+    forms (`ctorExcluded`) -/
+theorem ctorSize_sound_aux (k : CKind) (braces : Bool) (args : List Arg) (s r : Nat)
+    (hwf : args.all Arg.wf = true) (hex : ctorExcluded k braces args = false)
+    (hs : ctorSize k braces args = some s) (hr : ctorRef k braces args = some r) : s = r := by
+  cases args with
+  | nil => simp [ctorSize] at hs; simp [ctorRef, ctorRefPlain] at hr; omega
+  | cons a rest =>
+    cases braces with
+    | false =>
+      simp only [ctorSize, Bool.false_eq_true, if_false] at hs
+      simp only [ctorRef, Bool.false_and, Bool.false_eq_true, if_false] at hr
+      exact ctorArgs_sound k false (a :: rest) s r hwf hex (by simp) hs hr
+    | true =>
+      by_cases hall : allNum (a :: rest) = true
+      · -- the initializer_list constructor
+        obtain ⟨ha, _⟩ := allNum_head hall
+        simp only [ctorRef, hall, List.isEmpty_cons, Bool.not_false, Bool.and_self, if_true] at hr
+        split at hr
+        · rename_i hconv
+          cases hv : numValues (a :: rest) with
+          | none => simp [hv] at hr
+          | some vs =>
+            simp only [hv] at hr
+            have hlen := numValues_length _ _ hv
+            simp only [List.length_cons] at hlen
+            have hdd := dedup_length_le vs
+            -- what the code computes
+            simp only [ctorSize, if_true, initListSize] at hs
+            by_cases hinit : (if (true && decide ((a :: rest).length < 4)) = true then
+                (if (k == CKind.string) = true then a.isGenericChar && !a.isPointer
+                 else if a.isIntegral = true then true
+                 else if ((a :: rest).length == 1 && a.isContainer) = true then false else !isIteratorPair (a :: rest))
+                else true) = true
+            · simp only [hinit, Bool.not_true, Bool.false_eq_true, if_false] at hs
+              injection hs with hs
+              injection hr with hr
+              simp only [List.length_cons] at hs
+              by_cases hk : (k == CKind.set || k == CKind.uset) = true
+              · simp only [hk, if_true] at hr
+                have : (dedup vs).length < vs.length → False := by
+                  intro hlt
+                  unfold ctorExcluded at hex
+                  simp only [Bool.or_eq_false_iff] at hex
+                  have h2 := hex.2
+                  simp [hk, hall, hv, hlt] at h2
+                have hge : vs.length ≤ (dedup vs).length := Nat.le_of_not_lt this
+                omega
+              · simp only [hk] at hr
+                simp at hr; omega
+            · -- only for strings whose first list element is not a character: the list is taken for constructor arguments
+              simp only [hinit, Bool.not_false, if_true] at hs
+              exfalso
+              cases a <;> simp [Arg.isIntegral] at ha
+              rename_i isChar v known
+              cases rest with
+              | nil =>
+                simp [ctorArgsSize, Arg.isIntegral, Arg.knownInt] at hs
+                unfold ctorExcluded at hex
+                simp only [Bool.or_eq_false_iff] at hex
+                have h1 := hex.1
+                cases k <;> simp_all [Arg.isGenericChar, Arg.isPointer, Arg.isIntegral, allNum, numValues, listConverts]
+              | cons b rest' =>
+                obtain ⟨hb, _⟩ := allNum_head (by simpa [allNum] using hall : allNum (b :: rest') = true)
+                cases b <;> simp [Arg.isIntegral] at hb
+                simp [ctorArgsSize, Arg.isIntegral] at hs
+        · simp at hr
+      · -- a non-list constructor called with braces
+        simp only [ctorRef, hall, Bool.and_false, Bool.false_eq_true, if_false] at hr
+        simp only [ctorSize, if_true] at hs
+        have hnl : (true && allNum (a :: rest)) = false := by simpa using hall
+        unfold ctorRefPlain at hr
+        split at hr
+        all_goals (try (simp [initListSize, ctorArgsSize, Arg.isIntegral, Arg.isContainer, Arg.isPointer, Arg.isIterator, Arg.isGenericChar,
+          Arg.contValues, Arg.knownInt, isIteratorPair] at hs))
+        all_goals (try (simp [ctorExcluded, Arg.wf] at hex hwf hall hnl hr))
+        all_goals (try (split at hs)) <;> (try simp_all [allNum]) <;> (try omega)
+        all_goals (try (split at hs)) <;> (try simp_all) <;> (try omega)
+
 end Cppcheck.ContainerSize
